@@ -118,7 +118,7 @@ def sanitize_table_prefix(app_id: str) -> str:
 
     Replaces any character that is not alphanumeric or underscore with an
     underscore, prepends an underscore if the result starts with a digit,
-    and always appends an 8-character hash of the original app_id.
+    and always appends the SHA-256 hex digest of the original app_id.
 
     The hash prevents collisions when two different app_ids sanitize to the
     same string (e.g. ``my-app`` and ``my_app``), and also protects against
@@ -132,7 +132,9 @@ def sanitize_table_prefix(app_id: str) -> str:
     if sanitized and sanitized[0].isdigit():
         sanitized = f"_{sanitized}"
     sanitized = sanitized or "_default"
-    hash_suffix = hashlib.sha256(app_id.encode()).hexdigest()[:8]
+    # the whole digest: a truncated one lets two ids with the same sanitised form collide
+    # (8 hex digits are found by a 2**16 birthday search)
+    hash_suffix = hashlib.sha256(app_id.encode()).hexdigest()
     return f"{sanitized}_{hash_suffix}"
 
 
